@@ -48,7 +48,7 @@ Print Assumptions C02_tree_well_typed.
 (* ---------- the EMITTED code, lowered (structural tie: emitted text -> ops -> model) ----------
    tools/emitted_ops.py lowers, on every run, the bodies of encode / size / decode of every type the real pilota-build
    emitted for the corpus (plain and keep_unknown_fields configurations) into rows of ops
-   (Generated/EmittedOps.v, next to the corpus schema as a Coq term). *)
+   (Generated/EmittedOps.v, next to schema_plain / schema_keep: schema.txt restricted to the types the configuration emits). *)
 From PVGen Require Import EmitOps EmitDen Generated.EmittedOps Proofs.EmitOpsP Proofs.EmitTableP.
 
 (* the table lemma, by computation: for every type of the corpus schema the regenerated rows (normalised: String / FastStr,
@@ -56,15 +56,14 @@ From PVGen Require Import EmitOps EmitDen Generated.EmittedOps Proofs.EmitOpsP P
    field order, field ids, announced TTypes, method kinds, optional wrappers, decoder arms, variables, required checks,
    late defaults, retention statements; and the three bodies of a type name the same members under the same ids *)
 Theorem C02_emitted_ops_match :
-  ops_match corpus_schema false emitted_plain /\ ops_match corpus_schema true emitted_keep /\
-  present emitted_plain = length corpus_schema /\ (0 < present emitted_keep)%nat.
+  ops_match schema_plain false emitted_plain /\ ops_match schema_keep true emitted_keep /\
+  (0 < length emitted_plain)%nat /\ (0 < length emitted_keep)%nat.
 Proof. exact emitted_ops_match. Qed.
 Print Assumptions C02_emitted_ops_match.
 
 Theorem C02_emitted_row_is_prescribed : forall n r d,
-  lookup corpus_schema n = Some d ->
-  (nth_error emitted_plain n = Some r -> r <> ENone -> norm_row r = presc_row corpus_schema false d /\ names_ok r = true) /\
-  (nth_error emitted_keep n = Some r -> r <> ENone -> norm_row r = presc_row corpus_schema true d /\ names_ok r = true).
+  (nth_error emitted_plain n = Some r -> lookup schema_plain n = Some d -> norm_row r = presc_row schema_plain false d /\ names_ok r = true) /\
+  (nth_error emitted_keep n = Some r -> lookup schema_keep n = Some d -> norm_row r = presc_row schema_keep true d /\ names_ok r = true).
 Proof. exact emitted_row_is_prescribed. Qed.
 Print Assumptions C02_emitted_row_is_prescribed.
 
@@ -75,8 +74,10 @@ Theorem C02_ops_denote_encode : forall S ck p, void_variants_zero S = true -> fo
 Proof. exact den_enc_presc. Qed.
 Print Assumptions C02_ops_denote_encode.
 
-(* the chain for the corpus of this run *)
-Theorem C02_emitted_encode_is_model : forall p k t v, no_uu v = true ->
-  den_enc (map norm_row emitted_plain) p k (presc_vop corpus_schema t) v = enc_ty corpus_schema p k t v.
+(* the chain for the corpus of this run: the rows AS LOWERED from the text (normalisation does not change the denotation:
+   Proofs/EmitNormP.v) denote the model *)
+Theorem C02_emitted_encode_is_model : forall p k t v,
+  (no_uu v = true -> den_enc emitted_plain p k (presc_vop schema_plain t) v = enc_ty schema_plain p k t v) /\
+  den_enc emitted_keep p k (presc_vop schema_keep t) v = enc_ty schema_keep p k t v.
 Proof. exact emitted_encode_is_model. Qed.
 Print Assumptions C02_emitted_encode_is_model.
